@@ -506,23 +506,25 @@ func (r *runner) emit(method, cond string, do func() string) (out string, ok boo
 		return got, true
 	}
 	sig0 := r.sigFor(rc, false, got)
-	switch {
-	case pbt.IsOpen(sig0):
-		// explained by a listed defect that does not depend on the transaction
-		r.fail(sig0, rc.method, rc.out, got, "")
-	case m1:
-		// differs from the transaction's state, equals what the committed state gives:
-		// keep judging against the latter
-		r.alive0 = false
-		r.mism = append(r.mism, mismatch{sig: preTxSig(r.drv), method: r.where() + rc.method, want: rc.out, got: got,
-			note: "the iterator of a transaction does not see the transaction's own writes (answers as the pre-transaction state would)"})
-		return got, true
-	case (rc.alt != rc.out || rc.altCond != rc.cond) && pbt.IsOpen(preTxSig(r.drv)):
-		// the driver is known to read the committed state here: classify against it
-		r.fail(r.sigFor(rc, true, got), rc.method, rc.alt, got, "judged against the pre-transaction state, which this driver's transaction iterators are known to read")
-	default:
-		r.fail(sig0, rc.method, rc.out, got, "")
+	if !pbt.IsOpen(sig0) { // (a listed defect that does not depend on the transaction explains it otherwise)
+		if m1 {
+			// differs from the transaction's state, equals what the committed state
+			// gives: keep judging against the latter
+			r.alive0 = false
+			r.mism = append(r.mism, mismatch{sig: preTxSig(r.drv), method: r.where() + rc.method, want: rc.out, got: got,
+				note: "the iterator of a transaction does not see the transaction's own writes (answers as the pre-transaction state would)"})
+			return got, true
+		}
+		if pbt.IsOpen(preTxSig(r.drv)) {
+			// this driver's transaction iterators are known to read the committed state:
+			// a listed defect applied to that state explains it
+			if sigA := r.sigFor(rc, true, got); pbt.IsOpen(sigA) {
+				r.fail(sigA, rc.method, rc.alt, got, "judged against the pre-transaction state, which this driver's transaction iterators are known to read")
+				return got, false
+			}
+		}
 	}
+	r.fail(sig0, rc.method, rc.out, got, "")
 	return got, false
 }
 
